@@ -175,6 +175,36 @@ def build(rnd, v):
     return ("post", "collect", ("tfilter", ("post", "iter", ("array", [("s", "a")])), INT)), p
 
 
+def identity_templates():
+    """functions and cells are equal by IDENTITY: a function is equal to itself however the two references were obtained -
+    its own name inside its body, a parameter it was handed, its result, an alias, a tuple or array element -, two closures
+    made by the same expression are different, a cell equals its aliases only"""
+    T = []
+    eq = lambda a, b: ("bin", "eq", a, b)
+    ne = lambda a, b: ("bin", "ne", a, b)
+    F = ("fndecl", "f", [("g", ANY)], BOOL, [("return", eq(V("g"), V("f")))])
+    FN = ("fndecl", "fn_", [("g", ANY)], BOOL, [("return", ne(V("g"), V("f2")))])
+    T.append([F, ("tuple", [("call", V("f"), [V("f")]), ("call", V("f"), [I(1)]), eq(V("f"), V("f"))])])
+    T.append([("fndecl", "f2", [("g", ANY)], BOOL, [("return", ne(V("g"), V("f2")))]), ("tuple", [("call", V("f2"), [V("f2")]), ("call", V("f2"), [I(1)])])])
+    SELF = ("fndecl", "me", [], ANY, [("return", V("me"))])
+    T.append([SELF, ("tuple", [eq(("call", V("me"), []), V("me")), eq(("call", V("me"), []), ("call", V("me"), [])), ne(("call", V("me"), []), V("me"))])])
+    T.append([("fndecl", "pk", [], ANY, [("return", ("tuple", [V("pk"), I(1)]))]), ("tuple", [eq(("call", V("pk"), []), ("tuple", [V("pk"), I(1)])),
+                                                                                                    eq(("array", [V("pk")]), ("array", [("tacc", ("call", V("pk"), []), 0)]))])])
+    T.append([("fndecl", "mt", [("g", ANY)], INT, [("return", ("match", V("g"), [("val", [V("mt")], ("block", [I(1)])), ("other", ("block", [I(0)]))]))]),
+              ("tuple", [("call", V("mt"), [V("mt")]), ("call", V("mt"), [I(5)])])])
+    T.append([SELF, ("set", "al", V("me")), ("tuple", [eq(V("al"), V("me")), eq(V("al"), ("call", V("al"), []))])])
+    # two closures created by the same expression are different; each equals itself
+    MK = ("fndecl", "mk", [], ANY, [("return", ("fn", [], INT, [("return", I(1))]))])
+    T.append([MK, ("set", "a", ("call", V("mk"), [])), ("set", "b", ("call", V("mk"), [])), ("tuple", [eq(V("a"), V("b")), eq(V("a"), V("a")), ne(V("a"), V("b"))])])
+    # recursion through the own name does not change identity either
+    T.append([("fndecl", "rec", [("n", INT), ("g", ANY)], BOOL, [("if", ("bin", "gt", V("n"), I(0)), ("block", [("return", ("call", V("rec"), [("bin", "sub", V("n"), I(1)), V("g")]))]), None),
+                                                                  ("return", eq(V("g"), V("rec")))]), ("call", V("rec"), [I(3), V("rec")])])
+    # cells
+    T.append([("set", "c", ("mut", INT, I(1))), ("set", "d", V("c")), ("set", "e", ("mut", INT, I(1))),
+              ("tuple", [eq(V("c"), V("d")), eq(V("c"), V("e")), eq(("tuple", [V("c"), I(1)]), ("tuple", [V("d"), I(1)])), ne(V("c"), V("e"))])])
+    return T
+
+
 def run(res, tier, seed, broken_model):
     rnd = random.Random(seed)
     n = 500 if tier == "quick" else 15000
@@ -203,6 +233,10 @@ def run(res, tier, seed, broken_model):
                                       V("m1"), V("m2")])]
         progs.append(stmts)
         metas.append((a, b, pa, pb, pa2))
+    idp = identity_templates()
+    irecs = P.run_programs(idp, broken_model=broken_model)
+    progprop.judge(res, irecs, broken_model, label="identity")
+    res.streams["identity-templates"] = dict(programs=len(idp))
     recs = P.run_programs(progs, broken_model=broken_model)
     res.streams["pairs"] = dict(programs=len(progs))
     good = progprop.judge(res, recs, broken_model, label="eq")
